@@ -175,11 +175,32 @@ fn main() {
                 // the label names its scope: bfs_<scope>_<index>
                 which = bfs::scopes().iter().enumerate().filter(|(_, s)| l.starts_with(&format!("bfs_{}_", s.name))).map(|(i, _)| i).collect();
             }
+            let n_walks: usize = arg(&args, "--walks").and_then(|s| s.parse().ok()).unwrap_or(0);
+            let wdepth: usize = arg(&args, "--walk-depth").and_then(|s| s.parse().ok()).unwrap_or(8);
+            let wseed: u64 = arg(&args, "--seed").and_then(|s| s.parse().ok()).unwrap_or(1);
             let mut total = Stats::default();
             let mut summary = vec![];
             let mut hists = 0u64;
             for k in which {
                 let mut tf = std::io::BufWriter::new(fs::File::create(format!("{}/trace_bfs{}.txt", out, k)).unwrap());
+                // a label of a deep walk: bfs_<scope>_w<walk>_<depth>
+                let is_walk_label = emit.as_deref().map(|l| l.rsplitn(3, '_').nth(1).map(|x| x.starts_with('w')).unwrap_or(false)).unwrap_or(false);
+                if n_walks > 0 || is_walk_label {
+                    let nw = if is_walk_label { 100000 } else { n_walks };
+                    let (o, h) = bfs::walks(k, nw, wdepth, wseed, |t| tf.write_all(t.as_bytes()).unwrap(), if is_walk_label { emit.as_deref() } else { None });
+                    if let Some(h) = h {
+                        let to = arg(&args, "--to").unwrap_or_else(|| format!("{}/{}.json", out, h.label));
+                        fs::write(&to, serde_json::to_string_pretty(&h).unwrap()).unwrap();
+                        println!("emitted {}", to);
+                        return;
+                    }
+                    if is_walk_label {
+                        continue;
+                    }
+                    hists += o.states as u64;
+                    summary.push(format!("{{\"scope\":{},\"walks\":{},\"walk_depth\":{},\"states\":{},\"edges\":{},\"accepted\":{}}}", k, n_walks, wdepth, o.states, o.edges, o.accepted));
+                    total.merge(&o.stats);
+                }
                 let (o, h) = bfs::run(k, max_states, threads, |t| tf.write_all(t.as_bytes()).unwrap(), emit.as_deref());
                 if let Some(h) = h {
                     let to = arg(&args, "--to").unwrap_or_else(|| format!("{}/{}.json", out, h.label));
